@@ -50,7 +50,7 @@ def worker_env():
     return env
 
 
-def run_shards(mod, prop_id, tier, seed, jobs, tmp):
+def run_shards(mod, prop_id, tier, seed, jobs, tmp, replay_case=None):
     n_shards = getattr(mod, "SHARDS", {}).get(tier, 16 if tier == "quick"
                                               else 64)
     timeout = getattr(mod, "TIMEOUT", {}).get(tier, 600 if tier == "quick"
@@ -60,12 +60,15 @@ def run_shards(mod, prop_id, tier, seed, jobs, tmp):
         env.update(mod.worker_env(tier))
     pending = list(range(n_shards))
     running = {}
-    results, failures = [], []
+    results, failures, crashes = [], [], []
+    if replay_case is not None:
+        pending = [0]
+        n_shards = 1
     while pending or running:
         while pending and len(running) < jobs:
             i = pending.pop(0)
             spec = dict(prop=prop_id, tier=tier, seed=seed, shard=i,
-                        n_shards=n_shards)
+                        n_shards=n_shards, replay_case=replay_case)
             sp = os.path.join(tmp, "spec%d.json" % i)
             op = os.path.join(tmp, "out%d.json" % i)
             json.dump(spec, open(sp, "w"))
@@ -88,12 +91,27 @@ def run_shards(mod, prop_id, tier, seed, jobs, tmp):
             log.close()
             logtxt = open(log.name).read()[-3000:]
             if rc != 0 or not os.path.exists(op):
-                failures.append("shard %d: exit %s\n%s" % (i, rc, logtxt))
+                cur = None
+                if os.path.exists(op + ".cur"):
+                    try:
+                        cur = json.load(open(op + ".cur"))
+                    except Exception:
+                        cur = None
+                if getattr(mod, "CRASH_IS_VIOLATION", False) and cur and \
+                        rc not in (None, 0):
+                    crashes.append(dict(
+                        kind="process-crash", key=None, cls=cur["cls"],
+                        idx=cur["idx"], case_repr=cur["case_repr"],
+                        msg="worker died with exit status %s while running "
+                            "this case; log tail:\n%s" % (rc, logtxt[-1500:]),
+                        detail={}))
+                else:
+                    failures.append("shard %d: exit %s\n%s" % (i, rc, logtxt))
                 continue
             r = json.load(open(op))
             r["log_tail"] = logtxt
             results.append(r)
-    return results, failures, n_shards
+    return results, failures, n_shards, crashes
 
 
 def merge(results):
@@ -142,29 +160,41 @@ def write_replay(prop_id, tier, seed, v, n):
 
 
 def do_replay(mod, prop_id, path):
-    core.use_repo()
-    from . import worker
+    """Re-run exactly the recorded case in a worker subprocess (same
+    environment as the checks, e.g. the sanitizer preload of C02)."""
     rec = json.load(open(path))
-    if rec.get("case_repr") is None:
-        print("replay file has no case (import failure witness):")
-        print(rec.get("msg"))
-        try:
-            if hasattr(mod, "setup"):
-                mod.setup("quick")
-        except Exception as e:
+    with tempfile.TemporaryDirectory(prefix="rv-replay-", dir="/var/tmp") as t:
+        if rec.get("case_repr") is None:
+            print("witness is an import failure of the module under test:")
+            print(rec.get("msg"))
+            results, failures, _, crashes = run_shards(
+                mod, prop_id, rec.get("tier", "quick"), 0, 1, t,
+                replay_case="None")
+            bad = any(r.get("import_error") for r in results)
+            if bad:
+                print("VIOLATION property=%s replay=%s" % (prop_id, path))
+            return 1 if bad else 0
+        results, failures, _, crashes = run_shards(
+            mod, prop_id, rec.get("tier", "quick"), rec.get("seed", 0), 1, t,
+            replay_case=rec["case_repr"])
+    m = merge(results)
+    print("outcome:", dict(m["outcomes"]), "monitors:", dict(m["monitors"]))
+    for f in failures:
+        print("INCONCLUSIVE property=%s reason=%s" % (prop_id, f[:1500]))
+    for e in m["errors"]:
+        print("INCONCLUSIVE property=%s reason=harness error\n%s" %
+              (prop_id, e["tb"]))
+    listed = known_findings()
+    rc = 2 if (failures or m["errors"]) else 0
+    for r in results:
+        if r.get("import_error"):
+            print(r["import_error"])
             print("VIOLATION property=%s replay=%s" % (prop_id, path))
             return 1
-        return 0
-    case = ast.literal_eval(rec["case_repr"])
-    if hasattr(mod, "setup"):
-        mod.setup(rec.get("tier", "quick"))
-    ctx = core.Ctx()
-    outcome, viols = worker.run_one(mod, case, ctx)
-    print("outcome:", outcome)
-    listed = known_findings()
-    rc = 0
-    for v in viols:
+    for v in m["violations"] + crashes:
         what, e = classify(prop_id, v, listed)
+        v = dict(v)
+        v.pop("case_repr", None)
         print(json.dumps(v, indent=1)[:3000])
         if what == "known":
             print("KNOWN-FINDING: property=%s %s" % (prop_id, e["what"]))
@@ -195,9 +225,10 @@ def main(argv=None):
     t0 = time.time()
     with tempfile.TemporaryDirectory(prefix="rv-%s-" % prop_id,
                                      dir="/var/tmp") as tmp:
-        results, failures, n_shards = run_shards(mod, prop_id, a.tier, a.seed,
-                                                 a.jobs, tmp)
+        results, failures, n_shards, crashes = run_shards(
+            mod, prop_id, a.tier, a.seed, a.jobs, tmp)
     m = merge(results)
+    m["violations"].extend(crashes)
     listed = known_findings()
     violations, known = [], {}
     for v in m["violations"]:
